@@ -94,6 +94,7 @@ type QGenOpts struct {
 	Sub      bool
 	Shift    bool
 	Where    bool
+	NoConst  bool // no derived fields with constant operands (finding C01-gap-row-const)
 	// DataSpan is how far back (ns, positive) the data reaches from Base, for
 	// window generation.
 	DataSpan int64
@@ -162,7 +163,7 @@ func genSelect(r *Rng, t *TableDef, u *Universe, o QGenOpts) []string {
 	if o.Shift && r.Bool(0.12) {
 		sel = append(sel, fmt.Sprintf("SHIFT(%s, '-%s') AS g2", PickOne(r, names), durSQL(time.Duration(t.ResNanos)*time.Duration(r.Range(1, 3)))))
 	}
-	if r.Bool(0.1) {
+	if r.Bool(0.1) && !o.NoConst {
 		sel = append(sel, fmt.Sprintf("%s * 2 AS g3", PickOne(r, names)))
 	}
 	return sel
@@ -270,7 +271,13 @@ func genQuery(r *Rng, t *TableDef, u *Universe, o QGenOpts) *QSpec {
 		if r.Bool(0.3) {
 			f = PickOne(r, fieldNames(t)) // possibly unselected
 		}
-		q.Having = fmt.Sprintf("%s %s %d", f, PickOne(r, []string{">", "<", ">=", "<>", "="}), r.Range(0, 12))
+		if o.NoConst {
+			// only predicates that are false for "no value" (0): a comparison
+			// with a constant reports a value for empty periods
+			q.Having = fmt.Sprintf("%s %s %d", f, PickOne(r, []string{">", ">="}), r.Range(1, 12))
+		} else {
+			q.Having = fmt.Sprintf("%s %s %d", f, PickOne(r, []string{">", "<", ">=", "<>", "="}), r.Range(0, 12))
+		}
 	}
 	if o.Order && r.Bool(0.4) {
 		cands := append(append([]string{"_time"}, names...), dimNames(u)...)
